@@ -5,6 +5,7 @@ import (
 	"fmt"
 	"os"
 	"sort"
+	"strconv"
 	"strings"
 	"time"
 )
@@ -25,6 +26,9 @@ var (
 func main() {
 	flag.Parse()
 	t0 := time.Now()
+	if v, err := strconv.Atoi(os.Getenv("NCGVERIF_MAXSTATES")); err == nil && v > 0 {
+		maxStates = v
+	}
 	if *flagDump != "" {
 		p, err := loadProg(*flagRepo, "", "")
 		if err != nil {
@@ -58,6 +62,70 @@ func main() {
 		}
 		pg := explore(g)
 		fmt.Printf("nodes=%d vars=%d insts=%d states=%d edges=%d trunc=%v unsupported=%v load+explore=%.1fs\n", len(g.Nodes), len(g.Vars), len(g.Insts), len(pg.States), pg.nedges, pg.Trunc, g.Unsup, time.Since(t0).Seconds())
+		if os.Getenv("NCGVERIF_HIST") != "" {
+			hist := map[string]int{}
+			for _, st := range pg.States {
+				if st.Node != nil && st.Node.Inst != nil {
+					hist[st.Node.Inst.Path()]++
+				}
+			}
+			for _, k := range sortedKeys2(hist) {
+				fmt.Printf("  %7d %s\n", hist[k], k)
+			}
+			// the busiest range heads: how many distinct stores / fact sets
+			type agg struct {
+				n      int
+				stores map[string]bool
+				facts  map[string]bool
+				vars   map[string]map[string]bool
+				fk     map[string]int
+			}
+			byNode := map[*Node]*agg{}
+			for _, st := range pg.States {
+				if st.Node == nil || st.Node.Kind != NRange {
+					continue
+				}
+				a := byNode[st.Node]
+				if a == nil {
+					a = &agg{stores: map[string]bool{}, facts: map[string]bool{}, vars: map[string]map[string]bool{}, fk: map[string]int{}}
+					byNode[st.Node] = a
+				}
+				a.n++
+				var sk []string
+				for id, v := range st.St {
+					nm := fmt.Sprintf("%s#%d", pg.G.Vars[id].Name, id)
+					if a.vars[nm] == nil {
+						a.vars[nm] = map[string]bool{}
+					}
+					k := "nil"
+					if v.T != nil {
+						k = v.T.Key()
+					}
+					a.vars[nm][k] = true
+					sk = append(sk, nm+"="+k)
+				}
+				sort.Strings(sk)
+				a.stores[strings.Join(sk, ";")] = true
+				var fk []string
+				for f := range st.Facts {
+					fk = append(fk, f)
+					a.fk[f]++
+				}
+				sort.Strings(fk)
+				a.facts[strings.Join(fk, ";")] = true
+			}
+			for n, a := range byNode {
+				fmt.Printf("RANGEHEAD %s states=%d stores=%d factsets=%d\n", p.pos(n.Pos), a.n, len(a.stores), len(a.facts))
+				for nm, vs := range a.vars {
+					if len(vs) > 1 {
+						fmt.Printf("     var %s: %d values\n", nm, len(vs))
+					}
+				}
+				for f, k := range a.fk {
+					fmt.Printf("     fact %s: in %d states\n", f, k)
+				}
+			}
+		}
 		fmt.Println("ATOMS:")
 		for _, a := range pg.AtomSet() {
 			fmt.Println("  ", a)
@@ -78,4 +146,13 @@ func main() {
 		return
 	}
 	os.Exit(runProps(t0))
+}
+
+func sortedKeys2(m map[string]int) []string {
+	var ks []string
+	for k := range m {
+		ks = append(ks, k)
+	}
+	sort.Strings(ks)
+	return ks
 }
